@@ -762,6 +762,9 @@ class Container:
             amount_to_add = Unit.convert(source, quantity, 'U')
         else:
             amount_to_add = Unit.convert(source, quantity, config.moles_storage_unit)
+        if not (numpy.isfinite(amount_to_add) and numpy.isfinite(volume_to_add)):
+            # e.g. a volume of a substance whose configured density is infinite
+            raise ValueError("Quantity to add must be a finite amount.")
         if round(amount_to_add, config.internal_precision) < 0 or round(volume_to_add, config.internal_precision) < 0:
             raise ValueError("Quantity to add must not be negative.")
         if round(self.volume + volume_to_add, config.internal_precision) > self.max_volume:
